@@ -936,7 +936,11 @@ class PulseSequence:
                 # expected to be sorted in accordance with the opers and coeffs.
                 pass
 
-        # Check if we can pass on intermediates.
+        control_matrix = self.get_control_matrix(omega, cache_intermediates=True)[n_idx]
+
+        # Check if we can pass on intermediates. They need to be fetched after
+        # getting the control matrix since that invalidates frequency-dependent
+        # intermediates cached for different frequencies.
         intermediates = dict()
         # TODO 05/22: walrus once support for 3.7 is dropped.
         n_opers_transformed = self._intermediates.get('n_opers_transformed')
@@ -946,7 +950,6 @@ class PulseSequence:
         if first_order_integral is not None:
             intermediates['first_order_integral'] = first_order_integral
 
-        control_matrix = self.get_control_matrix(omega, cache_intermediates=True)[n_idx]
         control_matrix_deriv = gradient.calculate_derivative_of_control_matrix_from_scratch(
             omega, self.propagators, self.eigvals, self.eigvecs, self.basis, self.t, self.dt,
             self.n_opers[n_idx], self.n_coeffs[n_idx], self.c_opers[c_idx], n_coeffs_deriv,
